@@ -94,6 +94,12 @@ def unmodelled_in(e: sym.Expr) -> List[str]:
     return sorted({x[1] for x in sym.walk(e) if x[0] == "opq" and x[1].startswith("unmodelled")})
 
 
+def leftover_placeholders(e: sym.Expr) -> bool:
+    """a loop-carried placeholder that survived into a final value: the loop summary could not eliminate it, so the value is
+    not what the code computes (rules that do not use placeholders on purpose must not compare such a value)"""
+    return any(x[0] == "opq" and x[1] == "carry" for x in sym.walk(e))
+
+
 def block_roles(run: Run, D: Blocks):
     """classify the stores of the cost matrix: cross block, diagonal block of the first / second diagram"""
     roles = {}
